@@ -48,9 +48,13 @@ Qed.
 
 (* For every source variant, both handler modes of the contract (process exit, longjmp), every
    scenario (all dimension vectors: rejection class of the loaded file, 0/1/2 plugin instances,
-   object kept or destroyed) and EVERY failure oracle: the trace is safe. *)
+   object kept or destroyed, in-place remake, in-place mj_recompile followed by the caller's cleanup)
+   and EVERY failure oracle: the trace is safe.  safe_clause_holds is true except for the in-place
+   scenarios when the arena cleanup leaves d->buffer dangling or when there are plugin instances;
+   C21_inplace_dangling_buffer_refuted / C21_inplace_plugin_refuted show the exceptions are real. *)
 Theorem C21_protocol_safe :
   forall (v : variant) (md : hmode) (sc : scenario) (o : nat -> bool), md <> HReturn ->
+    safe_clause_holds v sc = true ->
     exists h : list nat, Safe [] (trace_of (run (scenario_prog v md sc) o 0)) h.
 Proof. exact protocol_safe. Qed.
 
@@ -68,7 +72,7 @@ Proof. exact protocol_failure_iff. Qed.
    scenarios for which this is true; the three theorems after the next one show it is exact. *)
 Theorem C21_leak_free :
   forall (v : variant) (md : hmode) (sc : scenario) (o : nat -> bool), md <> HReturn ->
-    leak_clause_holds v sc = true ->
+    safe_clause_holds v sc = true -> leak_clause_holds v sc = true ->
     forall owned : list nat,
       value_of (run (scenario_prog v md sc) o 0) = Val owned ->
       forall id : nat,
@@ -78,11 +82,41 @@ Proof. exact protocol_leak_free. Qed.
 (* Constructor(s) followed by the matching destructor(s) leave the heap empty. *)
 Theorem C21_ctor_dtor_empty :
   forall (v : variant) (md : hmode) (sc : scenario) (o : nat -> bool), md <> HReturn ->
-    leak_clause_holds v sc = true -> keeps sc = false ->
+    safe_clause_holds v sc = true -> leak_clause_holds v sc = true -> keeps sc = false ->
     forall owned : list nat,
       value_of (run (scenario_prog v md sc) o 0) = Val owned ->
       owned = [] /\ forall id : nat, ~ allocated_in (trace_of (run (scenario_prog v md sc) o 0)) id.
 Proof. exact protocol_ctor_dtor. Qed.
+
+(* In-place construction (mj_makeRawData + mj_initPlugin + mj_resetData on an mjData struct owned by
+   the caller, no plugins): whichever allocation fails, the object is left deletable - the caller's
+   mj_deleteData after the failure frees every live block exactly once (safe trace: none twice;
+   nothing allocated stays unfreed).  Needs the arena cleanup to clear d->buffer (or not to free it). *)
+Theorem C21_inplace_failure_deletable :
+  forall (v : variant) (md : hmode) (o : nat -> bool), md <> HReturn ->
+    negb (v_darena v) || v_dnull v = true ->
+    let x := run (scenario_prog v md (SC_INPLACE NP0)) o 0 in
+    safe_trace (trace_of x) = true /\
+    forall owned : list nat, value_of x = Val owned ->
+      forall id : nat, ~ allocated_in (trace_of x) id.
+Proof. exact inplace_failure_deletable. Qed.
+
+(* ... and it is false when the cleanup frees the new buffer but keeps the pointer: the in-place
+   remake and mj_recompile followed by the caller's mj_deleteData free that buffer twice. *)
+Theorem C21_inplace_dangling_buffer_refuted :
+  forall (v : variant) (np : npl), v_darena v = true -> v_dnull v = false ->
+    safe_trace (trace_of (run (scenario_prog v HJump (SC_INPLACE NP0)) (oracle_of [4]) 0)) = false /\
+    safe_trace (trace_of (run (scenario_prog v HJump (SC_RECOMPILE NP0)) (oracle_of [19]) 0)) = false.
+Proof. exact inplace_dangling_buffer_double_free. Qed.
+
+(* With plugin instances the in-place path is unsafe as long as d->nplugin is not cleared by the
+   in-place mj_makeRawData: freeDataBuffers leaves d->nplugin and the pointers into the freed
+   buffer, which mj_deleteData then reads.  (With v_npl the in-place scenarios with 1 and 2 plugin
+   instances are covered by C21_protocol_safe.) *)
+Theorem C21_inplace_plugin_refuted :
+  forall v : variant, v_npl v = false ->
+    safe_trace (trace_of (run (scenario_prog v HJump (SC_INPLACE NP1)) (oracle_of [6]) 0)) = false.
+Proof. exact inplace_plugin_use_after_free. Qed.
 
 (* The leak clause is FALSE of the faithful model of the compile path as long as one of the three
    buffer allocations goes through the raising mju_malloc: a single failing allocation makes
@@ -106,8 +140,8 @@ Theorem C21_load_structs_leak_refuted :
 Proof. exact load_structs_leak. Qed.
 
 (* ---- non-vacuity ---- *)
-Definition v_raising := {| v_mbuf := false; v_dbuf := false; v_darena := false; v_lstructs := false |}.
-Definition v_cleanup := {| v_mbuf := true; v_dbuf := true; v_darena := true; v_lstructs := true |}.
+Definition v_raising := {| v_mbuf := false; v_dbuf := false; v_darena := false; v_lstructs := false; v_dnull := false; v_npl := false |}.
+Definition v_cleanup := {| v_mbuf := true; v_dbuf := true; v_darena := true; v_lstructs := true; v_dnull := true; v_npl := true |}.
 
 (* without faults the data scenario with two plugin instances makes 14 allocations, ends holding a
    mjData of 5 blocks, and the trace is safe *)
@@ -121,7 +155,7 @@ Proof. vm_compute. repeat split; reflexivity. Qed.
    freed before the error is raised, compile returns NULL, the retry succeeds *)
 Example C21_ex_compile_fault :
   observable (trace_of (run (scenario_prog v_cleanup HJump (SC_COMPILE NP0 false)) (oracle_of [4]) 0)) =
-  [Alloc 0 0; Alloc 1 1; Alloc 2 2; Alloc 3 3; AllocFail 4 4; Free 3; Free 2; Error 1; Free 1; Free 0;
+  [Alloc 0 0; Alloc 1 1; Alloc 2 2; Alloc 3 3; AllocFail 4 4; Free 3; Free 2; Error 101; Free 1; Free 0;
    Return RetNull;
    Alloc 5 0; Alloc 6 1; Alloc 7 2; Alloc 8 3; Alloc 9 4; Free 8; Free 9; Free 7;
    Alloc 10 2; Alloc 11 3; Alloc 12 4; Free 11; Free 12; Free 10; Return RetOk; Free 6; Free 5].
@@ -137,4 +171,12 @@ Proof. vm_compute. reflexivity. Qed.
 Example C21_ex_monitor_rejects :
   safe_trace [Alloc 0 0; Free 0; Free 0] = false /\ safe_trace [Free 3] = false /\
   safe_trace [AllocFail 0 0; Use None] = false /\ safe_trace [Alloc 0 0; Free 0; Use (Some 0)] = false.
+Proof. vm_compute. repeat split; reflexivity. Qed.
+
+(* in-place mj_recompile, arena allocation of the final MakeData step fails (attempt 19), handler
+   longjmps to the caller, who then deletes data and model: every block is freed exactly once *)
+Example C21_ex_recompile_arena_fault :
+  let x := run (scenario_prog v_cleanup HJump (SC_RECOMPILE NP0)) (oracle_of [19]) 0 in
+  value_of x = Val [] /\ safe_trace (trace_of x) = true /\ live_at_end (trace_of x) = [] /\
+  length (asked_of x) = 20.
 Proof. vm_compute. repeat split; reflexivity. Qed.
